@@ -393,6 +393,33 @@ def main():
             out["errors"].append({"parents": P, "end": e, "error": "toposort: " + repr(ex)})
             continue
         out["topo"].append({"parents": P, "end": e, "order": order})
+    # graphs far deeper than Python's recursion limit (a loop of several thousand steps, a deep chain with skip
+    # edges): the passes are iterative, so depth is only a matter of memory
+    import sys as _sys
+    for depth in (_sys.getrecursionlimit() * 3, _sys.getrecursionlimit() * 5 + 7):
+        out["dist"]["deep-graph"] = out["dist"].get("deep-graph", 0) + 1
+        P = [[]] + [[j - 1] + ([j - 2] if j >= 2 and j % 3 == 0 else []) for j in range(1, depth + 1)]
+        try:
+            order = list(toposort(depth, parents=lambda m: P[m]))
+            if order != list(range(depth, -1, -1)):
+                out["errors"].append({"kind": "deep-chain", "depth": depth, "error": "toposort of a chain with skip edges is not the reversed chain"})
+        except Exception as ex:
+            out["errors"].append({"kind": "deep-chain", "depth": depth, "error": "toposort: " + repr(ex)[:200]})
+        try:
+            from autograd import grad as _grad, make_jvp as _mj
+
+            def loop(x, depth=depth):
+                y = x
+                for k in range(depth):
+                    y = y + x if k % 2 else y * 1.0
+                return y
+            got = float(_grad(loop)(2.0))
+            want = float(1 + depth // 2)
+            fw = float(_mj(loop)(2.0)(1.0)[1])
+            if got != want or fw != want:
+                out["errors"].append({"kind": "deep-loop", "depth": depth, "error": "gradient of a %d-step loop: reverse %r, forward %r, expected %r" % (depth, got, fw, want)})
+        except Exception as ex:
+            out["errors"].append({"kind": "deep-loop", "depth": depth, "error": "a %d-step loop: %s" % (depth, repr(ex)[:200])})
     print(json.dumps(out))
 
 
